@@ -70,7 +70,8 @@ fn is_valid_domain(mut s: &str) -> bool {
             return false;
         }
 
-        if port.parse::<u16>().is_err() {
+        // `u16::from_str` accepts a leading `+`
+        if !port.bytes().all(|b| b.is_ascii_digit()) || port.parse::<u16>().is_err() {
             return false;
         }
 
